@@ -237,6 +237,30 @@ func init() {
 		x.u.fact("(not (snil_Int " + b.T + "))")
 		return []Val{b, {T: "0", S: "Int", Ty: errT()}}
 	}
+	// proto.Unmarshal: the message the second argument points to gets arbitrary content (the
+	// decoder is not modelled), the error is arbitrary
+	H["google.golang.org/protobuf/proto.Unmarshal"] = func(fr *Frame, st *State, c *ast.CallExpr, fn *types.Func) []Val {
+		x := fr.x
+		x.used("proto.Unmarshal: the target message holds arbitrary field values afterwards; any error value")
+		fr.expr(st, c.Args[0])
+		p := fr.expr(st, c.Args[1])
+		if p.Ty != nil {
+			if pt, ok := p.Ty.Underlying().(*types.Pointer); ok {
+				if stt, ok := pt.Elem().Underlying().(*types.Struct); ok {
+					for j := 0; j < stt.NumFields(); j++ {
+						f := stt.Field(j)
+						if !f.Exported() {
+							continue // protobuf bookkeeping (state, sizeCache, unknownFields)
+						}
+						hv := x.havocVal("pb_"+f.Name(), f.Type())
+						x.emitTypeFact(st, hv)
+						x.writeField(st, p, pt.Elem(), f, hv)
+					}
+				}
+			}
+		}
+		return []Val{x.errVal("err")}
+	}
 	// the node's guardian signer: assumed to work (the code panics by design otherwise)
 	H["(github.com/alephium/wormhole-fork/node/pkg/ecdsasigner.ECDSASigner).Sign"] = func(fr *Frame, st *State, c *ast.CallExpr, fn *types.Func) []Val {
 		x := fr.x
